@@ -156,7 +156,7 @@ RES_LOOP = "for resource_id in resources"
 contract(FS + "::CoordinationSystem.execute_operation", "C14",
          params={"work_fn": "callback", "validate_fn": "opt:callback", "resources": "opt:list:str"},
          # acquire_resource / complete_operation / abort_operation are used through their CONTRACTS (registry-wide frames for an arbitrary resource id);
-         # work_fn / validate_fn / the checkpoints of advance() are havocked and assumed not to touch the controller's registry
+         # work_fn / validate_fn / the checkpoints of advance() are havocked; that advance() does not touch the registry is its own obligation below (CellCycleController.advance), work_fn / validate_fn are assumed not to
          callbacks={"work_fn": {"returns": "any", "raises": ("Exception",)}, "validate_fn": {"returns": "any", "raises": ("Exception",)},
                     "CellCycleController.advance": {"returns": "enum:CheckpointResult", "raises": ("Exception",)},
                     "OperationContext.set_result": {"returns": "none", "raises": ()}},
